@@ -7,6 +7,10 @@
    -stubs, dotted stems, hidden / skipped names, ghosts) x option / cwd / mypy_path / argument-style combinations:
    real `create_source_list`, `compute_search_paths`, `FindModuleCache.find_module`, `find_modules_recursive`,
    `InvalidSourceList` vs the model driver, section by section.
+   The model's listing and duplicate-module test are also compared with the real *build path* (mypy.api.run: main →
+   create_source_list / find_modules_recursive → build.load_graph) on a sample of the cases, on a contested-pair
+   stream (X.py + X.pyi, __init__.py + __init__.pyi, module + package, two roots) and on three fixed layouts, every
+   listing in several orders incl. `.py` before `.pyi` (casecli.py).
 3. Search: (a) the property's own oracle on the real observations of every case (round trip or duplicate, outside
    the excluded cells computed from the real code); (b) the CLI three-way check `mypy DIR` / `mypy FILES…` /
    `mypy -p PKG` on package trees whose files carry one type error each.
@@ -19,13 +23,13 @@ import time
 
 from harness.vlib.core import Ctx, ToolFailure
 
-from . import cli3, gen, layout, oracle
+from . import casecli, cli3, gen, layout, oracle
 from .layout import Case
 
 MODEL_FILES = ["MypyVerif/Model/Layout.lean", "MypyVerif/Proofs/LayoutNames.lean", "MypyVerif/Proofs/LayoutCrawl.lean",
                "MypyVerif/Proofs/LayoutFind.lean", "MypyVerif/Proofs/LayoutRound.lean", "MypyVerif/Proofs/LayoutList.lean",
                "MypyVerif/Proofs/LayoutFS.lean", "MypyVerif/Proofs/LayoutDir.lean", "MypyVerif/Proofs/LayoutSide.lean",
-               "MypyVerif/Proofs/LayoutPkg.lean", "MypyVerif/Proofs/LayoutSort.lean"]
+               "MypyVerif/Proofs/LayoutPkg.lean", "MypyVerif/Proofs/LayoutSort.lean", "MypyVerif/Proofs/LayoutPerm.lean"]
 MODEL_FILES = [f for f in MODEL_FILES if os.path.exists(os.path.join(os.path.dirname(__file__), "..", "..", "lean", f))]
 
 # the witnesses of the `not_…` theorems (same trees as in Props/C18.lean), replayed on the real code every run
@@ -118,6 +122,7 @@ def correspondence(ctx: Ctx, cases: list, world: str) -> None:
         raise ToolFailure("driver returned %d lines for %d cases" % (len(model), len(cases)))
     ndiff = 0
     first_diffs = []
+    cli_diffs = []          # differing cases on which the real build path can be run (plain names, real arguments)
     known_cells_seen = {}
     crashes = []
     n_prop_checked = 0
@@ -143,6 +148,9 @@ def correspondence(ctx: Ctx, cases: list, world: str) -> None:
         if real != mcmp:
             ndiff += 1
             # keep a few distinct trees for the search, those whose find_module observations differ first
+            if len(cli_diffs) < 8 and casecli.eligible(case) and not any(d.entries == case.entries and d.cwd == case.cwd
+                                                                        and d.mypy_path == case.mypy_path for d in cli_diffs):
+                cli_diffs.append(case)
             fdiff = layout.parse(real).get("F") != layout.parse(mcmp).get("F")
             if not any(d[0].entries == case.entries for d in first_diffs):
                 if fdiff and sum(1 for d in first_diffs if d[3]) < 4:
@@ -201,6 +209,8 @@ def correspondence(ctx: Ctx, cases: list, world: str) -> None:
             ctx.report({"class": c}, "%s has module '%s', find_module returns %s" % (src[0].replace(world, "<W>"), src[1], found.replace(world, "<W>")),
                        replay_detail(case, real, mline, world))
     # a correspondence difference: the oracle above has been evaluated on every case; if it found nothing …
+    if ndiff and not ctx.violations and cli_diffs:
+        search_cli(ctx, cli_diffs, world)
     if ndiff and not ctx.violations:
         for case, real, mline, _ in first_diffs[:5]:
             if not ctx.violations:
@@ -212,6 +222,93 @@ def correspondence(ctx: Ctx, cases: list, world: str) -> None:
                           "no failing input on them" % (ndiff, len(cases)),
                           {"broken": "correspondence Driver/C18 vs mypy.find_sources / mypy.modulefinder",
                            **replay_detail(case, real, mline, world)}, found_input=False)
+
+
+def report_cli(ctx: Ctx, res) -> None:
+    cls, what, detail = res
+    ctx.count("case_cli_failures")
+    if ctx.coverage["case_cli_failures"] <= 3:
+        ctx.report({"class": cls}, what, detail)
+
+
+def neighbours(case: Case) -> list:
+    """the case itself, the same tree and configuration with every file listed individually, with its top-level
+    entries listed, and (when the case observes `-p`) from the directory that contains the package"""
+    files = sorted(p for p, k in case.entries if k == "f" and p.endswith((".py", ".pyi")))
+    out = [case]
+    d = case.to_json()
+    for args in (files, gen.top_entries([e for e in case.entries if e[1] == "f"])):
+        if args and args != case.args:
+            d2 = dict(d)
+            d2["args"] = list(args)
+            d2["kind"] = "near-cli"
+            out.append(Case.from_json(d2))
+    tops = sorted(set(p.split("/")[0] for p in files if "/" in p))
+    for t in tops[:3]:
+        if t != case.cwd:
+            d2 = dict(d)
+            d2["cwd"] = t
+            d2["args"] = [f for f in files if f.startswith(t + "/")]
+            d2["kind"] = "near-cli"
+            if d2["args"]:
+                out.append(Case.from_json(d2))
+    return out
+
+
+def search_cli(ctx: Ctx, diff_cases: list, world: str) -> None:
+    """Correspondence differs on these cases: run the real build path (mypy.api.run) on each of them and on its
+    neighbourhood, with contents that make a wrong module name / a missing file observable, judged by the model."""
+    runner = get_runner(ctx)
+    todo = []
+    for c in diff_cases:
+        todo += [n for n in neighbours(c) if casecli.eligible(n)]
+    todo = todo[:40]
+    views = casecli.model_views(ctx, todo, world)
+    for c, mv in zip(todo, views):
+        if mv is None:
+            continue
+        res = casecli.check(ctx, runner, c, world, "search:" + c.kind.split(":")[0], mv)
+        if res is not None:
+            report_cli(ctx, res)
+            return
+
+
+def build_path(ctx: Ctx, cases: list, world: str) -> None:
+    """The model's listing / duplicate test against the real build path on every run: a sample of the generated
+    cases (half of them with a duplicate module according to the model) and the contested-pair stream, every
+    listing in several orders (casecli.check)."""
+    rng = ctx.rng
+    runner = get_runner(ctx)
+    n = ctx.pick(22, 300)
+    pool = [c for c in cases if casecli.eligible(c) and c.kind.split(":")[0] != "odd"]
+    rng.shuffle(pool)
+    pool = pool[: 4 * n]
+    views = casecli.model_views(ctx, pool, world)
+    dups = [(c, v) for c, v in zip(pool, views) if v is not None and v[1] is not None]
+    plain = [(c, v) for c, v in zip(pool, views) if v is not None and v[1] is None]
+    chosen = dups[: n // 3] + plain[: n - n // 3]
+    pairs = [gen.dup_pair_case(rng) for _ in range(ctx.pick(14, 200))]
+    # the three seeded shapes, every run: explicit bases with sources outside MYPYPATH, a sub-package marked only by
+    # __init__.pyi without namespace packages, a .py/.pyi pair listed individually with the .py first
+    fixed = [
+        Case(entries=[("src/lib/__init__.py", "f"), ("src/lib/core.py", "f"), ("tools/gen/util.py", "f"),
+                      ("tools/gen/run.py", "f")], args=["src", "tools"], cwd="", mypy_path=["src"], ns=True, epb=True,
+             kind="fixed:outside-mypypath"),
+        Case(entries=[("pkg/__init__.py", "f"), ("pkg/a.py", "f"), ("pkg/sub/__init__.pyi", "f"), ("pkg/sub/m.py", "f")],
+             args=["pkg"], cwd="", ns=False, epb=False, kind="fixed:stub-only-subpackage"),
+        Case(entries=[("pkg/__init__.py", "f"), ("pkg/a.py", "f"), ("pkg/a.pyi", "f"), ("pkg/b.py", "f")],
+             args=["pkg/__init__.py", "pkg/a.py", "pkg/a.pyi", "pkg/b.py"], cwd="", ns=True, epb=False,
+             kind="fixed:py-before-pyi"),
+    ]
+    extra = fixed + pairs
+    eviews = casecli.model_views(ctx, extra, world)
+    for c, mv in chosen + list(zip(extra, eviews)):
+        if mv is None:
+            continue
+        ctx.case(("case-cli", c.key()))
+        res = casecli.check(ctx, runner, c, world, c.kind.split(":")[0], mv)
+        if res is not None:
+            report_cli(ctx, res)
 
 
 def search_near(ctx: Ctx, case: Case, world: str) -> None:
@@ -288,6 +385,24 @@ def three_way_tree(ctx: Ctx, runner, files, regime: str, kind: str) -> bool:
     ctx.dist("cli3_regime", regime)
     ctx.dist("cli3_kind", kind)
     ctx.count("cli3_invocations", len(res))
+    # argument-order independence of the first alternative: every file named individually, the contested pairs
+    # included, `.py` before `.pyi` and the other way round — both must stop with the duplicate-module error
+    eff = cli3.effective_files(files)
+    if len(eff) != len(files):
+        fl = cli3.flags_for(regime)
+        allorders = [sorted(files), sorted(files, key=lambda p: (not p.endswith(".pyi"), p))]
+        for i, o in enumerate(allorders):
+            out, err, rc = runner.run(cwd, fl, o)
+            ctx.count("cli3_invocations")
+            if not casecli.is_dup_blocker(out, err, rc):
+                ctx.count("cli3_duplicate_not_reported")
+                if ctx.coverage["cli3_duplicate_not_reported"] <= 2:
+                    ctx.report({"class": "duplicate-not-reported"},
+                               "`mypy %s` names two files of one module but does not stop with a duplicate-module error "
+                               "(exit %d: %s)" % (" ".join(o), rc, casecli.diag(out, err)[:3]),
+                               {"regime": regime, "flags": fl, "files": texts, "listed_orders": allorders,
+                                "diagnostics": {"all%d" % i: casecli.diag(out, err)}})
+                return False
     names = list(res)
     crashed = [n for n in names if any(l.startswith("CRASH") or "INTERNAL ERROR" in l for l in res[n])]
     if crashed:
@@ -320,7 +435,7 @@ def three_way_tree(ctx: Ctx, runner, files, regime: str, kind: str) -> bool:
 def three_way(ctx: Ctx) -> None:
     rng = ctx.rng
     runner = get_runner(ctx)
-    n = ctx.pick(90, 1200)
+    n = ctx.pick(70, 1100)
     agree = 0
     # the F10 layout itself, every run
     three_way_tree(ctx, runner, ["pk/a.pyi", "pk/a/c.py"], "C", "F10-layout")
@@ -420,11 +535,14 @@ def main(ctx: Ctx) -> None:
     t1 = time.time()
     correspondence(ctx, cases, world)
     t2 = time.time()
+    build_path(ctx, cases, world)
+    t3 = time.time()
     three_way(ctx)
     if not proved:
         directed_search(ctx, consts)
     ctx.coverage["phase_s"] = {"prove": round(t0 - ctx.t0, 1), "witnesses+gen": round(t1 - t0, 1),
-                               "correspondence": round(t2 - t1, 1), "cli_three_way": round(time.time() - t2, 1)}
+                               "correspondence": round(t2 - t1, 1), "build_path": round(t3 - t2, 1),
+                               "cli_three_way": round(time.time() - t3, 1)}
     if not proved and not ctx.violations:
         ctx.violation("Lean development for C18 no longer builds", {"broken": ctx.broken_ties}, found_input=False)
 
@@ -432,7 +550,9 @@ def main(ctx: Ctx) -> None:
 def replay(ctx: Ctx, path: str) -> int:
     body = json.load(open(path))
     det = body["replay"].get("detail", body["replay"])
-    if "case" in det:
+    if "file_contents" in det:
+        casecli.replay(ctx, get_runner(ctx), det)
+    elif "case" in det:
         case = Case.from_json(det["case"])
         world = os.path.join(ctx.tmp, "k-0")
         real = run_case(case, world)
